@@ -5,13 +5,13 @@ package main
 
 import (
 	"bytes"
+	"encoding/json"
+	"flag"
+	"fmt"
 	"go/parser"
 	"go/token"
 	"io"
 	"log"
-	"encoding/json"
-	"flag"
-	"fmt"
 	"os"
 	"path/filepath"
 	"sort"
@@ -280,9 +280,9 @@ func phaseGenerate(root, tier string, seed uint64) {
 	must(runCompiler(&inspector.Config{Target: inspector.TargetFile, File: declFile, Destination: filepath.Join(root, "xml", "decl"),
 		Import: "gen/decl", XML: "xml/decl"}, true))
 	// testobj regenerated by the current generator (directory target), next to the committed output
-	must(runCompiler(&inspector.Config{Target: inspector.TargetDirectory, Directory: repoDir+"/testobj", Destination: filepath.Join(root, "fresh", "testobj_ins"),
+	must(runCompiler(&inspector.Config{Target: inspector.TargetDirectory, Directory: repoDir + "/testobj", Destination: filepath.Join(root, "fresh", "testobj_ins"),
 		Import: "github.com/koykov/inspector/testobj", Force: true}, false))
-	must(runCompiler(&inspector.Config{Target: inspector.TargetDirectory, Directory: repoDir+"/testobj", Destination: filepath.Join(root, "xml", "fresh"),
+	must(runCompiler(&inspector.Config{Target: inspector.TargetDirectory, Directory: repoDir + "/testobj", Destination: filepath.Join(root, "xml", "fresh"),
 		Import: "github.com/koykov/inspector/testobj", XML: "xml/fresh"}, true))
 }
 
@@ -312,6 +312,11 @@ func phaseMain(root string) {
 	for _, s := range shapes {
 		f := filepath.Join(root, "decl_ins", strings.ToLower(s.Name)+"_ins.go")
 		if _, err := os.Stat(f); err != nil {
+			// no compiling inspector (an open C14 class): the type itself is declared and parsed
+			x := filepath.Join(root, "xml", "decl", strings.ToLower(s.Name)+".xml")
+			if _, err := os.Stat(x); err == nil && s.Kind != "conly" {
+				fmt.Fprintf(&sb, "\tcorr.RegisterReflectOnly(%q, decl.%s{}, %q, %q, %q)\n", s.Name, s.Name, x, s.Expr, s.Family)
+			}
 			continue
 		}
 		alive = append(alive, s.Kind+":"+s.Expr)
@@ -363,10 +368,36 @@ func phaseTargets(root, run string) {
 		errs["package-xml"] = err.Error()
 	}
 	must(os.Chdir(base))
-	if err := compileAndXML(&inspector.Config{Target: inspector.TargetDirectory, Directory: repoDir+"/testobj", Destination: filepath.Join(base, "dir"), Import: imp}, "dirxml"); err != nil {
+	if err := compileAndXML(&inspector.Config{Target: inspector.TargetDirectory, Directory: repoDir + "/testobj", Destination: filepath.Join(base, "dir"), Import: imp}, "dirxml"); err != nil {
 		errs["directory"] = err.Error()
 	}
-	for i, f := range []string{repoDir+"/testobj/testobj.go", repoDir+"/testobj/testobj1.go"} {
+	// re-generation over an existing destination (NoClean): every file the run writes must come out as it does in
+	// a fresh destination, whatever the old file of that name held — a longer version, a shorter one, something else
+	rr := filepath.Join(base, "rerun")
+	must(os.MkdirAll(rr, 0755))
+	if ents, err := os.ReadDir(filepath.Join(base, "dir")); err == nil {
+		k := 0
+		for _, e := range ents {
+			if !strings.HasSuffix(e.Name(), "_ins.go") {
+				continue
+			}
+			old, _ := os.ReadFile(filepath.Join(base, "dir", e.Name()))
+			switch k % 3 {
+			case 0:
+				old = append(old, []byte("\n// tail of a longer previous version\nfunc staleTail() {}\n"+strings.Repeat("// stale\n", 300))...)
+			case 1:
+				old = old[:len(old)/2]
+			default:
+				old = []byte("package stale\n" + strings.Repeat("// unrelated previous content\n", len(old)/16))
+			}
+			k++
+			must(os.WriteFile(filepath.Join(rr, e.Name()), old, 0644))
+		}
+		if err := runCompiler(&inspector.Config{Target: inspector.TargetDirectory, Directory: repoDir + "/testobj", Destination: rr, Import: imp, NoClean: true}, false); err != nil {
+			errs["rerun"] = err.Error()
+		}
+	}
+	for i, f := range []string{repoDir + "/testobj/testobj.go", repoDir + "/testobj/testobj1.go"} {
 		if err := runCompiler(&inspector.Config{Target: inspector.TargetFile, File: f, Destination: filepath.Join(base, "file"), Import: imp, NoClean: i > 0}, false); err != nil {
 			errs["file"] = err.Error()
 		}
@@ -395,14 +426,14 @@ func phaseTargets(root, run string) {
 	bl := filepath.Join(base, "blacklist")
 	must(os.MkdirAll(bl, 0755))
 	must(os.WriteFile(filepath.Join(bl, "marker.txt"), []byte("keep"), 0644))
-	if err := runCompiler(&inspector.Config{Target: inspector.TargetDirectory, Directory: repoDir+"/testobj", Destination: bl, Import: imp, NoClean: true,
+	if err := runCompiler(&inspector.Config{Target: inspector.TargetDirectory, Directory: repoDir + "/testobj", Destination: bl, Import: imp, NoClean: true,
 		BlackList: map[string]struct{}{"TestObject1": {}, "TestFlag": {}}}, false); err != nil {
 		errs["blacklist"] = err.Error()
 	}
 	cl := filepath.Join(base, "clean")
 	must(os.MkdirAll(cl, 0755))
 	must(os.WriteFile(filepath.Join(cl, "marker.txt"), []byte("remove"), 0644))
-	if err := runCompiler(&inspector.Config{Target: inspector.TargetDirectory, Directory: repoDir+"/testobj", Destination: cl, Import: imp}, false); err != nil {
+	if err := runCompiler(&inspector.Config{Target: inspector.TargetDirectory, Directory: repoDir + "/testobj", Destination: cl, Import: imp}, false); err != nil {
 		errs["clean"] = err.Error()
 	}
 	// an un-forced run over the whole grammar slice: does the generator itself report an error?
@@ -418,7 +449,7 @@ func phaseTargets(root, run string) {
 // phaseFacts extracts from the generated inspector files (committed, regenerated testobj, grammar slice)
 // the facts the Lean side re-checks on every run: their distinct import sets.
 func phaseFacts(root string) {
-	dirs := []string{repoDir+"/testobj_ins", filepath.Join(root, "fresh", "testobj_ins"), filepath.Join(root, "decl_ins")}
+	dirs := []string{repoDir + "/testobj_ins", filepath.Join(root, "fresh", "testobj_ins"), filepath.Join(root, "decl_ins")}
 	sets := map[string]bool{}
 	n := 0
 	fset := token.NewFileSet()
